@@ -131,7 +131,7 @@ def load_npy_as_striped(filenames, stride=1):
         logger.debug("Writing file %s to [%s:%s]", i, start, end)
         local_data[start:end] = data[::stride]
         start = end
-    assert end == len(local_data)
+    assert start == len(local_data)
 
     logger.debug("Loaded %s npys into an array of shape %s.",
                  len(filenames), local_data.shape)
